@@ -374,3 +374,26 @@ PROPS["C13"] = dict(
                  "surface", "radix heap is only driven with keys >= the key returned by the most recent "
                  "top()/pop()/swap_top_bucket() (its documented precondition)", SAN_ASSUME],
 )
+
+# ----------------------------------------------------------------------------- C17
+PROPS["C17"] = dict(
+    units={"lru_splay": dict(src=["harness/C17_lru_splay.cpp"])},
+    quick=[R("lru_splay", "asan", 8, 120), R("lru_splay", "plain", 8, 1200)],
+    thorough=[R("lru_splay", "asan", 16, 8000, timeout=7200), R("lru_splay", "plain", 16, 60000, timeout=7200)],
+    rule="a case = 12 rounds; a round = one LRU cache history (LruCacheSet<int|string>, LruCacheMap<int,Tracked | "
+         "string,string | Tracked,int>; key universe 3..12 plus one rarely present key; 20..300 ops: put (new and "
+         "existing key, new value), touch, touch_if_exists, erase, erase_if_exists, get, get_touch, exists, pop on "
+         "non-empty caches, clear-then-reuse, final drain by pop) and one SplayTree history (set/multiset x less/"
+         "greater/coarse order with 2-key equivalence classes x int/Tracked keys; insert, erase(key), erase(node), "
+         "exists, find, clear-then-reuse, operations on the empty tree, destruction). After every op: LRU size, "
+         "exists() of every key, returned values, exception kind (range_error exactly for absent keys), popped key = "
+         "least recently used with its latest value, ledger.live; SplayTree size/empty, result of the call, complete "
+         "in-order traversal == std::(multi)set (sortedness of the walk = search-tree validity), live node blocks "
+         "== size through the arena-checking allocator, ledger.live == size for Tracked keys. Classes: container "
+         "type x universe.",
+    require=dict(any=["lru_histories", "splay_histories", "lru_pops", "lru_put_existing", "lru_exception_on_absent",
+                      "splay_clear_then_reuse", "splay_ops_on_empty_tree", "splay_erase_one_of_equivalent"]),
+    assumptions=["a std::list with linear search is the reference LRU; std::set/multiset the reference ordered set",
+                 "find() on an absent key may return either neighbour (the splayed root); only membership is fixed",
+                 SAN_ASSUME],
+)
